@@ -3,7 +3,9 @@ package main
 import (
 	"encoding/json"
 	"os"
+	"os/exec"
 	"path/filepath"
+	"strings"
 )
 
 // writeReplay stores everything known about a violated claim (all failing
@@ -38,5 +40,105 @@ func writeReplay(rep *Report, claim string, obls []*Obligation, r *FuncResult, s
 	return path
 }
 
+type harnessDef struct {
+	Property string `json:"property"`
+	PkgDir   string `json:"pkgdir"`
+	File     string `json:"file"`
+	Test     string `json:"test"`
+	Race     bool   `json:"race"`
+}
+
+var harnessCache = map[string]map[string]interface{}{}
+
+// runReplayHarness runs the bounded witness-search harnesses registered for
+// the property against the real code (go test -overlay, nothing is written
+// to the repository) and records whether a concrete failing input was found.
 func runReplayHarness(rep *Report, claim string, obls []*Obligation, r *FuncResult, s *Session, m map[string]interface{}) {
+	if c, ok := harnessCache[rep.Prop]; ok {
+		for k, v := range c {
+			m[k] = v
+		}
+		return
+	}
+	res := map[string]interface{}{}
+	defer func() {
+		harnessCache[rep.Prop] = res
+		for k, v := range res {
+			m[k] = v
+		}
+	}()
+	var defs []harnessDef
+	if loadJSON(filepath.Join(verifDir, "replay", "index.json"), &defs) != nil {
+		return
+	}
+	var runs []map[string]interface{}
+	confirmed := false
+	for _, d := range defs {
+		if d.Property != rep.Prop {
+			continue
+		}
+		out, fails := runHarness(d)
+		runs = append(runs, map[string]interface{}{"harness": d.File, "test": d.Test, "package": d.PkgDir,
+			"kind": "bounded witness search over a fixed input pool (not a proof)", "failing_inputs": fails, "output_tail": tail(out, 4000)})
+		if len(fails) > 0 {
+			confirmed = true
+		}
+	}
+	res["replay_runs"] = runs
+	res["failing_input_confirmed"] = confirmed
+}
+
+func tail(s string, n int) string {
+	if len(s) > n {
+		return s[len(s)-n:]
+	}
+	return s
+}
+
+// runHarness executes one harness; returns the output and the REPLAY-FAIL lines.
+func runHarness(d harnessDef) (string, []string) {
+	pkg := filepath.Join(repoDir, d.PkgDir)
+	mod := pkg
+	for {
+		if _, err := os.Stat(filepath.Join(mod, "go.mod")); err == nil {
+			break
+		}
+		if mod == "/" || mod == repoDir {
+			mod = repoDir
+			break
+		}
+		mod = filepath.Dir(mod)
+	}
+	tmp, err := os.MkdirTemp("", "govc-replay-")
+	if err != nil {
+		return err.Error(), nil
+	}
+	defer os.RemoveAll(tmp)
+	for _, f := range []string{"go.mod", "go.sum"} {
+		b, _ := os.ReadFile(filepath.Join(mod, f))
+		os.WriteFile(filepath.Join(tmp, f), b, 0o644)
+	}
+	ov := map[string]map[string]string{"Replace": {filepath.Join(pkg, "zz_verif_replay_test.go"): filepath.Join(verifDir, d.File)}}
+	b, _ := json.Marshal(ov)
+	ovf := filepath.Join(tmp, "overlay.json")
+	os.WriteFile(ovf, b, 0o644)
+	args := []string{"test", "-overlay", ovf, "-modfile", filepath.Join(tmp, "go.mod"), "-vet=off", "-count=1", "-timeout", "300s", "-run", "^" + d.Test + "$"}
+	if d.Race {
+		args = append(args, "-race")
+	}
+	args = append(args, ".")
+	cmd := exec.Command("go", args...)
+	cmd.Dir = pkg
+	cmd.Env = append(os.Environ(), "GOFLAGS=-mod=mod", "GOPROXY=off", "GOSUMDB=off", "GOTOOLCHAIN=local")
+	outb, _ := cmd.CombinedOutput()
+	out := string(outb)
+	var fails []string
+	for _, ln := range strings.Split(out, "\n") {
+		if strings.HasPrefix(ln, "REPLAY-FAIL") || strings.HasPrefix(ln, "WARNING: DATA RACE") || strings.HasPrefix(ln, "panic:") || strings.HasPrefix(ln, "fatal error:") {
+			if len(fails) < 20 {
+				fails = append(fails, ln)
+			}
+		}
+	}
+	return out, fails
 }
